@@ -56,3 +56,12 @@
 
 ; @template lemma:List:len_take
 (forall ((l {L}) (n Int)) (! (=> (and (<= 0 n) (<= n (len_{L} l))) (= (len_{L} (take_{L} n l)) n)) :pattern ((take_{L} n l))))
+
+; @template lemma:List:nth_last
+(forall ((l {L})) (! (=> ((_ is cons_{L}) l) (= (nth_{L} l (- (len_{L} l) 1)) (lastl_{L} l))) :pattern ((lastl_{L} l))))
+
+; @template lemma:List:upd_last
+(forall ((l {L}) (v {E})) (! (=> ((_ is cons_{L}) l) (= (upd_{L} l (- (len_{L} l) 1) v) (replast_{L} l v))) :pattern ((replast_{L} l v))))
+
+; @template lemma:List:upd_same
+(forall ((l {L}) (i Int) (v {E})) (! (=> (and (<= 0 i) (< i (len_{L} l)) (= v (nth_{L} l i))) (= (upd_{L} l i v) l)) :pattern ((upd_{L} l i v))))
